@@ -170,6 +170,8 @@ func main() {
 		os.Exit(selftest(os.Args[2:]))
 	case "sensitivity":
 		os.Exit(sensitivity(os.Args[2:]))
+	case "witnesses":
+		os.Exit(witnesses())
 	}
 	id := os.Args[1]
 	p, ok := props[id]
